@@ -4,7 +4,7 @@
    action on the states reachable from its initial state, then for the SM3-HMAC of coq/Hash. *)
 From GmVerif Require Import Base.ListX Base.Bytes Hash.MD Hash.SM3 Hash.SM3Proofs Hash.Hmac Hash.HmacProofs
   Hash.Instances Hash.C03Lemmas Cipher.SM4 Cipher.GF128 Cipher.GCM Cipher.Aead Cipher.AeadProofs Cipher.GCMProofs
-  Cipher.CCMProofs Cipher.AES Cipher.AESProofs.
+  Cipher.CCMProofs Cipher.AES Cipher.AESProofs Cipher.BitsX.
 Require Import Lia ZifyN ZifyNat ZifyBool.
 Ltac Zify.zify_post_hook ::= Z.div_mod_to_equations.
 Local Open Scope nat_scope.
@@ -783,3 +783,102 @@ Section AesInst.
     apply (ctr_crypt_invol (aes_encrypt_block16 key) (fun x => aesE_len key Hk x) [] 0). lia.
   Qed.
 End AesInst.
+
+(* ===================== GCM as coded = SP 800-38D section 7 (inc32 / GCTR / GHASH) ===================== *)
+Lemma w8_shiftr x k : w8 (N.shiftr x k) = ((x / 2 ^ k) mod 256)%N.
+Proof. unfold w8. change 255%N with (N.ones 8). rewrite N.land_ones, N.shiftr_div_pow2. reflexivity. Qed.
+Lemma be32_N_to_be x : be32 x = N_to_be 4 x.
+Proof.
+  unfold be32. cbn [N_to_be app]. rewrite !w8_shiftr.
+  replace (w8 x) with (x mod 256)%N by (unfold w8; change 255%N with (N.ones 8); rewrite N.land_ones; reflexivity).
+  rewrite !N.div_div by discriminate.
+  change (2 ^ 24)%N with 16777216%N. change (2 ^ 16)%N with 65536%N. change (2 ^ 8)%N with 256%N.
+  change (256 * 256 * 256)%N with 16777216%N. change (256 * 256)%N with 65536%N. reflexivity.
+Qed.
+
+Lemma N_to_be_mod : forall k x, N_to_be k (x mod 256 ^ N.of_nat k)%N = N_to_be k x.
+Proof.
+  induction k as [|k IH]; intros x; [reflexivity|]. cbn [N_to_be].
+  replace (256 ^ N.of_nat (S k))%N with (256 * 256 ^ N.of_nat k)%N
+    by (rewrite Nat2N.inj_succ, N.pow_succ_r'; reflexivity).
+  assert (Hp : (256 ^ N.of_nat k <> 0)%N) by (apply N.pow_nonzero; discriminate).
+  rewrite N.mod_mul_r by (first [discriminate | exact Hp]).
+  set (q := ((x / 256) mod 256 ^ N.of_nat k)%N).
+  replace ((x mod 256 + 256 * q) / 256)%N with q.
+  2:{ rewrite N.mul_comm, N.div_add by discriminate. rewrite N.div_small by (apply N.mod_lt; discriminate). reflexivity. }
+  replace ((x mod 256 + 256 * q) mod 256)%N with (x mod 256)%N.
+  2:{ rewrite N.mul_comm, N.mod_add by discriminate. rewrite N.mod_mod by discriminate. reflexivity. }
+  unfold q. rewrite IH. reflexivity.
+Qed.
+
+Lemma bytes_ok_be32 x : bytes_ok (be32 x) = true.
+Proof. rewrite be32_N_to_be. apply bytes_ok_N_to_be. Qed.
+
+Lemma ctr32_incr_eq_inc32 c : blk_ok c -> ctr32_incr c = inc32 c /\ blk_ok (inc32 c).
+Proof.
+  intros [Hl Ho].
+  assert (Hc : c = firstn 12 c ++ skipn 12 c) by (symmetry; apply firstn_skipn).
+  assert (Hs : length (skipn 12 c) = 4) by (rewrite skipn_length; lia).
+  pose proof (bytes_ok_skipn 12 c Ho) as Hos.
+  destruct (skipn 12 c) as [|a [|b [|c0 [|d [|? ?]]]]] eqn:Esk; try discriminate Hs.
+  cbn in Hos. repeat (apply andb_prop in Hos; destruct Hos as [? Hos]).
+  repeat match goal with H : (_ <? 256)%N = true |- _ => apply N.ltb_lt in H end.
+  assert (Hw : [a; b; c0; d] = N_to_be 4 (get_be32 [a; b; c0; d])).
+  { rewrite <- be32_N_to_be. symmetry. apply be32_get_be32; assumption. }
+  unfold inc32. rewrite Esk. split.
+  - unfold ctr32_incr. rewrite Hc at 1. rewrite Hw at 1. rewrite ctr_n_incr_be.
+    rewrite be32_N_to_be. f_equal.
+    (* N_to_be truncates: the mod 2^32 is immaterial *)
+    symmetry. apply (N_to_be_mod 4).
+  - split.
+    + rewrite app_length, firstn_length. cbn [length be32]. lia.
+    + rewrite bytes_ok_app, bytes_ok_firstn, bytes_ok_be32 by exact Ho. reflexivity.
+Qed.
+
+Section GcmSpec.
+  Variable E : list N -> list N.
+  Hypothesis E_len : forall x, length (E x) = 16.
+
+  Lemma ctr_crypt_gctr : forall f cb d, blk_ok cb -> ctr_crypt E ctr32_incr f cb d = gctr E f cb d.
+  Proof.
+    induction f as [|f IH]; intros cb d Hcb; [reflexivity|]. cbn [ctr_crypt gctr].
+    destruct d; [reflexivity|]. destruct (ctr32_incr_eq_inc32 cb Hcb) as [Hi Hb]. rewrite Hi. f_equal. apply IH, Hb.
+  Qed.
+
+  Lemma gctr_nil f cb : gctr E f cb [] = [].
+  Proof. destruct f; reflexivity. Qed.
+  Lemma gctr_one_block cb s : length s = 16 -> gctr E 16 cb s = xor_bytes s (E cb).
+  Proof.
+    intros Hs. destruct s as [|x l]; [discriminate|].
+    change (gctr E 16 cb (x :: l)) with
+      (xor_bytes (firstn 16 (x :: l)) (E cb) ++ gctr E 15 (inc32 cb) (skipn 16 (x :: l))).
+    rewrite firstn_all2, skipn_all2 by lia. rewrite gctr_nil, app_nil_r. reflexivity.
+  Qed.
+
+  Lemma j0_blk_ok iv : bytes_ok iv = true -> blk_ok (gcm_j0 E iv).
+  Proof.
+    intros Hiv. unfold gcm_j0. destruct (length iv =? 12) eqn:El.
+    - apply Nat.eqb_eq in El. split; [rewrite app_length, El; reflexivity|].
+      rewrite bytes_ok_app, Hiv. reflexivity.
+    - split; [apply ghash_length|]. unfold ghash, gf_to_bytes.
+      rewrite bytes_ok_app. unfold be64. rewrite !bytes_ok_app, !bytes_ok_be32. reflexivity.
+  Qed.
+
+  (* ---- gcm_eq_sp800_38d: the code (byte-carry counter, GHASH loops) = SP 800-38D section 7 ---- *)
+  Theorem gcm_eq_sp800_38d chk iv aad p t r : bytes_ok iv = true ->
+    gcm_encrypt E chk iv aad p t = Ok r -> r = gcm_spec_encrypt E iv aad p t.
+  Proof.
+    intros Hiv. unfold gcm_encrypt. destruct (chk && _); [discriminate|]. destruct (16 <? t) eqn:Ht; [discriminate|].
+    intros H; inversion H; subst r; clear H. apply Nat.ltb_ge in Ht.
+    unfold gcm_spec_encrypt.
+    assert (Hj : j0_spec E iv = gcm_j0 E iv).
+    { unfold j0_spec, gcm_j0. destruct (length iv =? 12); [reflexivity|]. symmetry. apply ghash_eq_spec. }
+    rewrite Hj. pose proof (j0_blk_ok iv Hiv) as Hb.
+    destruct (ctr32_incr_eq_inc32 _ Hb) as [Hi Hb1].
+    unfold ctr32_crypt. rewrite Hi, ctr_crypt_gctr by exact Hb1. f_equal.
+    rewrite <- ghash_eq_spec. set (c := gctr E (length p) (inc32 (gcm_j0 E iv)) p).
+    unfold gcm_tag16. set (s := ghash (gcm_H E) aad c).
+    assert (Hs : length s = 16) by apply ghash_length.
+    rewrite gctr_one_block by exact Hs. rewrite xor_bytes_comm. reflexivity.
+  Qed.
+End GcmSpec.
